@@ -57,6 +57,10 @@ class LogProbe(logging.Handler):
             msg = f"<unformattable log record: {type(e).__name__}>"
         self._buf().append((record.name, record.levelname, msg))
         self.total += 1
+        self._tls.n = getattr(self._tls, "n", 0) + 1
+
+    def total_for_thread(self) -> int:
+        return getattr(self._tls, "n", 0)
 
     def drain(self) -> list:
         b = self._buf()
